@@ -41,9 +41,14 @@ def cmd_replay(args):
         from engine_k import runner as K
         return K.replay(rep)
     orc = S.Oracle(S.ensure_oracle('debug'))
+    orc_tu = None
     ok = True
     for c in rep['calls']:
-        out = orc.call([c['oracle_line']])[0]
+        if c.get('oracle', 'oracle') == 'oracle_tu':
+            orc_tu = orc_tu or S.Oracle(S.ensure_oracle('debug', which='oracle_tu'))
+            out = orc_tu.call([c['oracle_line']])[0]
+        else:
+            out = orc.call([c['oracle_line']])[0]
         same = out.strip() == c['native_output'].strip()
         print('%s -> %s   (recorded: %s) %s' % (c['oracle_line'], out, c['native_output'], 'REPRODUCED' if same else 'DIFFERENT'))
         ok = ok and same
